@@ -127,6 +127,15 @@ def exec_job(job):
         base = [0, 0, 0, 1e4, 1e6, 1e8][(len(str(job["y"])) + 3 * job["k"] + job["n"]) % 6]
     if base and dt == "float":
         x, y = x + base, y + base
+    # physical units (seed round 7): the t statistics are invariant under multiplying every value by
+    # the same positive constant, and EXACTLY so in floating point for a power of two; the real call
+    # sees data in units of 2**-30 / 2**-36 (spreads of 1e-9 .. 1e-11: source power, SI units) or 2**30,
+    # the specification keeps the small integers.  An absolute tolerance in the code shows only there.
+    up = job.get("unit_pow2")
+    if up is None:
+        up = [0, 0, 0, -30, -36, 30][(len(str(job["x"])) * 7 + job["k"] + 3 * job["n"] + int(paired)) % 6]
+    if up and dt == "float":
+        x, y = x * 2.0 ** up, y * 2.0 ** up
     thr = job["tn"] / job["td"]
     rec = dict(fn=FN, n=n, nx=x.shape[2], ny=y.shape[2], x=[encode.mat_int(m) for m in job["x"]],
                y=[encode.mat_int(m) for m in job["y"]], tn=job["tn"], td=job["td"], tail=tail,
